@@ -133,7 +133,7 @@ def fill_coverage(ctx, pid, data):
 
 def stale_known(ctx, pid, recs):
     """Known findings of this property (with an S-run witness) that this run did not re-confirm."""
-    got = {r['key'] for r in recs if r['property'] == pid}
+    got = {r['key'] for r in recs if r['property'] == pid} | {k for k, _ in ctx.known_hits}
     return [k['key'] for k in ctx.known if k.get('property') == pid and isinstance(k.get('witness'), dict)
             and k['witness'].get('config') and k['key'] not in got]
 
